@@ -7,6 +7,7 @@ import PV.Model.Regions
 import PV.Model.Flatten
 import PV.Model.Strip
 import PV.Model.Leaf
+import PV.Model.StripTy
 /-! Driver commands that execute programs: `run-ic10`, `run-src`, `equiv`. -/
 namespace PV.DriverRun
 open Lean PV.IC10 PV.IC10.Parse
@@ -602,6 +603,48 @@ def stripCompare (j : Json) : Except String Json := do
       match (s.zip qprog).zipIdx.find? (fun ((a, b), _) => !instrEq a b) with
       | some (_, i) => pure (Json.mkObj ([("verdict", Json.str "differ"), ("line", Json.num (JsonNumber.fromNat i))] ++ extra))
       | none => pure (Json.mkObj ([("verdict", Json.str "same")] ++ extra))
+
+/-- first step at which the typing of `PV.Strip.tyRun` fails: (step number, line), for the report only -/
+partial def tyDiag (env : Env Float) (P : List (Instr PReg Float)) (lab : Nat → Bool) (budget : Nat) (s : St PReg Float) (T : PV.Strip.Ty PReg)
+    (k : Nat) : Option (Nat × Nat) :=
+  if budget == 0 || s.halted then none else
+  match P[s.pc]? with
+  | none => none
+  | some i =>
+    if lab s.pc then tyDiag env P lab (budget - 1) (step FloatSem.sem env P s) T (k + 1) else
+    match PV.Strip.tyStep FloatSem.sem T s i with
+    | none => some (k, s.pc)
+    | some T' => tyDiag env P lab (budget - 1) (step FloatSem.sem env P s) T' (k + 1)
+
+/-- the hypothesis of `PV.Strip.strip_traces_typed` on one run of a REAL output pair: is the label-free output `strip` of the
+    labelled one, and is the run of the labelled output well typed for `steps` steps (no line number used as a value)?  Also
+    compares the two effect traces directly (what the theorem concludes). -/
+def stripRun (j : Json) : Except String Json := do
+  let labelled ← j.getObjValAs? String "labelled"
+  let stripped ← j.getObjValAs? String "stripped"
+  let seed ← j.getObjValAs? Nat "seed"
+  let steps ← j.getObjValAs? Nat "steps"
+  let pool ← poolOf (← j.getObjVal? "pool")
+  match parseProgram labelled, parseProgram stripped with
+  | .error e, _ => pure (Json.mkObj [("verdict", Json.str "parse-error"), ("detail", Json.str ("labelled: " ++ e))])
+  | _, .error e => pure (Json.mkObj [("verdict", Json.str "parse-error"), ("detail", Json.str ("stripped: " ++ e))])
+  | .ok p, .ok q =>
+    let lab : Nat → Bool := fun i => p.isLabel.getD i false
+    let sp := if labelled.isEmpty then [] else PV.Strip.strip FloatSem.sem (fun n => Float.ofNat n) lab p.prog
+    let qprog := if stripped.isEmpty then [] else q.prog
+    let same := sp.length == qprog.length && (sp.zip qprog).all (fun (a, b) => instrEq a b)
+    let env := envF seed pool
+    let typed := (PV.Strip.tyRun FloatSem.sem env p.prog lab steps initSt PV.Strip.Ty.none).isSome
+    let diag := if typed then none else tyDiag env p.prog lab steps initSt PV.Strip.Ty.none 0
+    let sP := run FloatSem.sem env p.prog steps initSt
+    let sQ := run FloatSem.sem env qprog steps initSt
+    let tP := sP.trace.reverse
+    let tQ := sQ.trace.reverse
+    let cp := commonPrefix tP tQ
+    let tracesOk := cp == min tP.length tQ.length && tP.length ≤ tQ.length
+    pure (Json.mkObj [("verdict", Json.str "done"), ("same", Json.bool same), ("typed", Json.bool typed), ("traces_ok", Json.bool tracesOk),
+      ("ill_typed_at", match diag with | some (k, pc) => Json.arr #[Json.num (JsonNumber.fromNat k), Json.num (JsonNumber.fromNat pc)] | none => Json.null),
+      ("effects", Json.num (JsonNumber.fromNat tP.length))])
 
 /-! ### C06: leaf functions -/
 
